@@ -16,7 +16,28 @@ Typed == [kind |-> "typed"]
 NoParts == [ns |-> <<>>, name |-> <<>>, ver |-> <<>>, quals |-> <<>>, sub |-> <<>>]
 
 \* error conversion T::Error::from(ParseError)
-WrapErr(shape, e) == IF shape.kind = "typed" THEN "Parse:" \o e ELSE e
+WrapErr(shape, e) == IF shape.kind \in {"typed", "test"} THEN "Parse:" \o e ELSE e
+
+(***************************************************************************)
+(* User-supplied shapes (C14): a parameterised family.                     *)
+(*   shape = [kind |-> "test", conv |-> BOOLEAN, fin |-> BOOLEAN,          *)
+(*            edits |-> sequence of edits the finish hook performs]        *)
+(* The shape value `st` is the type string exactly as it was handed to the *)
+(* conversion (or to the builder); package_type() reports its ASCII lower  *)
+(* case.  Edits go through the public PurlParts fields, i.e. qualifier     *)
+(* edits go through Qualifiers::insert / remove (invalid keys are refused  *)
+(* there and the hook ignores that).                                       *)
+(***************************************************************************)
+ApplyEdit(parts, e) ==
+   CASE e[1] = "clearName" -> [parts EXCEPT !.name = <<>>]
+     [] e[1] = "setName" -> [parts EXCEPT !.name = e[2]]
+     [] e[1] = "setNs" -> [parts EXCEPT !.ns = e[2]]
+     [] e[1] = "setVer" -> [parts EXCEPT !.ver = e[2]]
+     [] e[1] = "setSub" -> [parts EXCEPT !.sub = e[2]]
+     [] e[1] = "insQ" -> IF ValidKey(e[2]) THEN [parts EXCEPT !.quals = QInsert(parts.quals, ALowerS(e[2]), e[3])] ELSE parts
+     [] e[1] = "remQ" -> IF ValidKey(e[2]) THEN [parts EXCEPT !.quals = QRemove(parts.quals, ALowerS(e[2]))] ELSE parts
+RECURSIVE ApplyEdits(_, _)
+ApplyEdits(parts, es) == IF es = <<>> THEN parts ELSE ApplyEdits(ApplyEdit(parts, es[1]), Tail(es))
 
 \* step 1: PurlShape::finish.  String, Cow::Owned, SmartString: str_preview_mut (lib.rs:201);
 \* Cow::Borrowed: validate, copy only if not lower (lib.rs:165) - same function of the input (C13).
@@ -27,6 +48,8 @@ FinishCowBorrowed(t) ==
 StepFinish(shape, st, parts, tab) ==
    IF shape.kind = "generic" THEN
       LET r == FinishString(st) IN IF r.ok THEN [ok |-> TRUE, st |-> r.st, parts |-> parts] ELSE r
+   ELSE IF shape.kind = "test" THEN
+      (IF shape.fin THEN [ok |-> TRUE, st |-> st, parts |-> ApplyEdits(parts, shape.edits)] ELSE Err("HookError"))
    ELSE LET r == TypedFinish(st, parts, tab) IN
         IF r.ok THEN [ok |-> TRUE, st |-> st, parts |-> r.parts] ELSE r
 \* step 2: name check
@@ -40,7 +63,7 @@ StepChecksum(shape, parts, tab) ==
         IF ~c.ok THEN Err(WrapErr(shape, c.err))
         ELSE [ok |-> TRUE, parts |-> [parts EXCEPT !.quals = QInsert(parts.quals, CHECKSUM, c.s)]]
 
-TypeStr(shape, st) == st
+TypeStr(shape, st) == IF shape.kind = "test" THEN ALowerS(st) ELSE st
 MkValue(shape, st, parts) == [type |-> TypeStr(shape, st), ns |-> parts.ns, name |-> parts.name,
                               ver |-> parts.ver, quals |-> parts.quals, sub |-> parts.sub]
 PartsOf(v) == [ns |-> v.ns, name |-> v.name, ver |-> v.ver, quals |-> v.quals, sub |-> v.sub]
@@ -56,4 +79,6 @@ BuildF(shape, st, parts, tab) ==
 
 \* C10: into_builder().build()
 Rebuild(shape, v, tab) == BuildF(shape, v.type, PartsOf(v), tab)
+\* validity of a value by shape: the type string is constrained for the built-in shapes only
+ValidFor(shape, v) == IF shape.kind = "test" THEN ValidParts(v) ELSE Valid(v)
 =============================================================================
